@@ -347,6 +347,18 @@ pub fn gen_c13(rng: &mut Rng) -> PipeCase {
             _ => rng.below(ni as u64) as usize,
         };
         case.bad = Some(Bad { kind, chrom, item });
+    } else if roll == 7 && rng.chance(1, 2) {
+        // degenerate: the simulator's source starts chromosomes that have no value at all
+        // (all of them, or some among chromosomes with data): the write must still return
+        case.source = Source::Sim {
+            inflight: rng.range(1, 4) as u8,
+        };
+        let all = rng.chance(1, 2);
+        for c in &mut case.chroms {
+            if all || rng.chance(1, 2) {
+                c.items.clear();
+            }
+        }
     } else if roll < 9 {
         // degenerate but valid: only zero-length items
         for c in &mut case.chroms {
